@@ -535,6 +535,20 @@ Theorem C08_glob_glob_commute :
       Ok (with_globs st (globs st ++ [row_of gm s1 p1 u1 m1; row_of gm s2 p2 u2 m2])).
 Proof. exact glob_glob_commute. Qed.
 
+(* Either order, glob versus static files (ANY list of paths in one request) and glob versus static
+   tree (adoption of undeclared inputs included): any creators, any `ow gr`, from ANY state (no
+   invariant needed); each acceptable on its own => accepted in both orders with the SAME state.
+   A pattern owns nothing: the static side never reads the registrations, the registration only
+   looks at build products, which a static declaration neither adds nor removes. *)
+Theorem C08_glob_static_tree_commute :
+  forall gm ow gr st x s pat subs ms,
+    is_static_or_tree x = true ->
+    accepted (step gm ow gr st (RqGlob s pat subs ms)) = true ->
+    accepted (step gm ow gr st x) = true ->
+    both (run gm ow gr st [RqGlob s pat subs ms; x]) (run gm ow gr st [x; RqGlob s pat subs ms]) /\
+    accepted (run gm ow gr st [x; RqGlob s pat subs ms]) = true.
+Proof. exact glob_static_tree_commute. Qed.
+
 (* The code fact behind group 5, read from the source on every run by statement-level translation
    of every SQL statement that writes nglob: register_nglob deletes no existing row. *)
 Theorem C08_register_supersedes_nothing : register_pre_delete = [].
